@@ -119,14 +119,14 @@ def bytes_oracle(op, line, derived):
 
 def run(ctx):
     facts = ctx.facts() or {}
-    thms = ctx.build_and_audit(["NutsProofs.Props.C17", "NutsProofs.Props.C17Framing", "NutsProofs.Props.C17Fold", "NutsProofs.Props.C17Kid"])
+    thms = ctx.build_and_audit(["NutsProofs.Props.C17", "NutsProofs.Props.C17Framing", "NutsProofs.Props.C17Fold", "NutsProofs.Props.C17Kid", "NutsProofs.Props.C17LdBytes"])
     required = ["allowed_lists_asymmetric", "accept_parseJWT", "accept_parseJWS", "accept_dpop", "accept_dagTx", "accept_dagTx_partial", "accept_dagTx_of_fact",
                 "fact_dag_rejects_private_jwk", "fact_dag_framing_body", "fact_dag_kid_xor_jwk", "fact_alg_fits_key", "fits_is_the_algorithm_of_the_curve", "fact_verifiers_hold_no_key_state", "key_is_current_resolution",
                 "accept_apiToken", "accept_jar", "accept_vcJwt", "accept_vcJsonLd", "fact_vcJsonLd", "fact_wiring", "accept_authzV1", "accept_ldProof", "fact_authzV1",
                 "authzV1_without_kid_check_accepts_foreign_key", "header_keys_ignored", "apiToken_key_header_rejected",
                 "parseJWS_splitCompact_mode_accepts_two_uncovered", "dagTx_without_private_check_accepts_private_jwk",
                 "apiToken_atLeastOne_rule_accepts_two_signatures",
-                "xph_single_signature", "xph_agrees_with_parseJWT", "fact_extractProtectedHeaders", "fact_resolveSigningKey", "kid_issuer_test_exact", "kid_issuer_test_complete", "resolved_kid_is_issuers", "vcJwtSignatureK_refines", "accept_vcJwtK",
+                "accept_ldProof_bytes", "xph_single_signature", "xph_agrees_with_parseJWT", "fact_extractProtectedHeaders", "fact_resolveSigningKey", "kid_issuer_test_exact", "kid_issuer_test_complete", "resolved_kid_is_issuers", "vcJwtSignatureK_refines", "accept_vcJwtK",
                 "fact_fold_guard", "fact_caseVariantMember", "fold_s_k_orbits", "fold_ascii", "toLower_misses_long_s", "ambiguousMember_refuses_every_conflated_pair",
                 "accept_vcJsonLdDoc", "toLower_guard_accepts_conflated_pair",
                 "fact_dag_framing_consts", "fact_alphabet", "fact_signatureAlgorithm", "rawurl_roundtrip", "encode_is_canonical", "canonical_segment_unique",
